@@ -24,7 +24,8 @@ func init() {
 			" R12 compiled Matcher/Replacer fields never receive nil; R13 emptied comment groups are dropped from File.Comments (F14); R5 also: a function literal of Run that assigns its named error result builds on the current value." +
 			" R14 a comparison handed to diff.Difference that itself diffs lists is made once per pair (F16)." +
 			" R15 no cycle in the call graph of package main, the library API, the section splitter and internal/text. R16 in augmenter.Apply a '...' is put into a statement or expression slot only behind cursor.Index() >= 0 (or, for an expression, a for header). R1 also accepts reader-governed loops, chain walks over links set once at creation, and range-over-int." +
-			" R17 every nil return of a pointer-returning method of the metavariable parser is reached only through a call that fails the parser or through the nil test of another such method's result.",
+			" R17 every nil return of a pointer-returning method of the metavariable parser is reached only through a call that fails the parser or through the nil test of another such method's result." +
+			" R18 x[c:len(x)-k] with c,k>=1 is dominated by a comparison establishing len(x) >= c+k (conjuncts of a && condition count); R19 every reflect.Value.Slice is dominated by a comparison of its upper bound with Len()/Cap() of the same value.",
 		Trusted:     append([]string{"go/scanner.Scanner.Scan keeps returning token.EOF once the input is exhausted", "bufio.Scanner.Scan terminates"}, commonTrusted...),
 		Assumptions: commonAssumptions,
 	})
@@ -53,6 +54,9 @@ func runC08(r *an.Run) {
 	noRecursionInTheFrontEnd(r, "R15-no-recursion-outside-the-tree-walkers")
 	loneElisionRejected(r, "R16-a-lone-elision-is-rejected")
 	nilMeansFailed(r, "R17-a-nil-from-the-metavariable-parser-means-it-failed")
+	trimmedSliceHasRoom(r, "R18-a-slice-trimmed-at-both-ends-has-room")
+	reflectSliceWithinLength(r, "R19-a-reflected-list-is-sliced-within-its-length")
+	commentGroupPositionsGuarded(r, "R20-an-emptied-comment-group-is-not-asked-for-its-position")
 }
 
 func tokenEOF(r *an.Run) int64 {
